@@ -26,12 +26,15 @@ def setup():
     # pre-build every property module (in parallel); a module that fails here (e.g. a regenerated obligation that no longer
     # holds on a changed repo) is not a set-up failure: its own check rebuilds it and reports what broke
     props = sorted(p.stem for p in (core.LIB / "Props").glob("*.lean"))
-    ok2, out2 = core.lake_build(["SqlfluffVerif.Props.%s" % p for p in props] + ["SqlfluffVerif.Gen.GrammarSkel"])
+    ok2, out2 = core.lake_build(["SqlfluffVerif.Props.%s" % p for p in props] + ["SqlfluffVerif.Gen.GrammarSkel", "SqlfluffVerif.Gen.LayoutEdits"])
     print(out2[-1500:])
     return 0
 
 
 def main():
+    if os.environ.get("VERIF_FAULT"):
+        import faulthandler, signal
+        faulthandler.register(signal.SIGUSR1, all_threads=True)
     ap = argparse.ArgumentParser()
     ap.add_argument("prop", nargs="?")
     ap.add_argument("--tier", default=os.environ.get("VERIF_TIER", "quick"), choices=["quick", "thorough"])
